@@ -38,7 +38,9 @@ def _case(draw):
             "content_mode": draw(st.sampled_from(["full", "full", "ramp"])),
             "cbin": cbin, "chunk": draw(st.integers(5, 90)), "sort": draw(st.sampled_from([True, True, False])),
             # how the reader is built: directly, from a str path, with open=False + open(), or open=False + context manager
-            "how": draw(st.sampled_from(["default", "default", "str", "deferred", "context"]))}
+            # "inplace" (compressed files only): the reader decompresses its file in place (keep_original=False is
+            # documented as modifying the current reader), is re-opened and then used for every read
+            "how": draw(st.sampled_from(["default", "default", "str", "deferred", "context"] + (["inplace"] if cbin else [])))}
     nops = draw(st.integers(24, 40))
     ops = []
     for _ in range(nops):
@@ -90,7 +92,16 @@ def run_case(case, ctx):
         path = rec.compress(binf, nc, fs, case["chunk"], keep_bin=False) if case["cbin"] else binf
         how = case.get("how", "default")
         ctx.label("how_" + how)
-        if how in ("deferred", "context"):
+        if how == "inplace" and case["cbin"]:
+            sr = ctx.call("C01.open", sg.Reader, path, sort=case["sort"])
+            if sr is not ctx.CRASH:
+                def _inplace():
+                    sr.decompress_file(keep_original=False)
+                    sr.open()
+                if ctx.call("C01.inplace_decompress", _inplace) is ctx.CRASH:
+                    return
+                case = dict(case, cbin=False)  # reads go through the memmap from here on
+        elif how in ("deferred", "context"):
             sr = ctx.call("C01.open", sg.Reader, path, sort=case["sort"], open=False)
             if sr is not ctx.CRASH and ctx.call("C01.open", sr.open if how == "deferred" else sr.__enter__) is ctx.CRASH:
                 return
